@@ -1192,6 +1192,14 @@ class KmipEngine(object):
     def _is_valid_date(self, date_type, value, start, end):
         date_type = date_type.value.lower()
 
+        def show(seconds):
+            # Only used for log messages: a date outside the range the
+            # platform can convert must not make the comparison fail.
+            try:
+                return time.asctime(time.gmtime(seconds))
+            except (OverflowError, ValueError, OSError):
+                return str(seconds)
+
         if start is not None:
             if end is not None:
                 if value < start:
@@ -1199,9 +1207,9 @@ class KmipEngine(object):
                         "Failed match: object's {} ({}) is less than "
                         "the starting {} ({}).".format(
                             date_type,
-                            time.asctime(time.gmtime(value)),
+                            show(value),
                             date_type,
-                            time.asctime(time.gmtime(start))
+                            show(start)
                         )
                     )
                     return False
@@ -1210,9 +1218,9 @@ class KmipEngine(object):
                         "Failed match: object's {} ({}) is greater than "
                         "the ending {} ({}).".format(
                             date_type,
-                            time.asctime(time.gmtime(value)),
+                            show(value),
                             date_type,
-                            time.asctime(time.gmtime(end))
+                            show(end)
                         )
                     )
                     return False
@@ -1222,9 +1230,9 @@ class KmipEngine(object):
                         "Failed match: object's {} ({}) does not match "
                         "the specified {} ({}).".format(
                             date_type,
-                            time.asctime(time.gmtime(value)),
+                            show(value),
                             date_type,
-                            time.asctime(time.gmtime(start))
+                            show(start)
                         )
                     )
                     return False
